@@ -225,3 +225,65 @@ def validate_lin(lines, *, module="StreamsLin", nproc=4, timeout=600, max_rej=12
         res = list(ex.map(lambda ch: _lin_chunk(module, ch, timeout, max_rej), chunks))
     return {"rejected": [r for x in res for r in x[0]], "states": sum(x[1] for x in res), "transitions": sum(x[2] for x in res),
             "jvm_runs": sum(x[3] for x in res)}
+
+
+# ------------------------------------------------------------------------------------------------ C19: streaming runs
+
+LEAK_OVERLAY = {"compose/zz_verif_leak_test.go": os.path.join(vlib.HARNESS, "compose", "zz_verif_leak_test.go")}
+
+
+def gen_run_shapes(mode, n, max_edges, branch=True, *, timeout=300, simulate=None, depth=None, seed=None):
+    cfg = cfg_consts({"N": n, "MaxEdges": max_edges, "Mode": mode, "AllowBranch": branch}) + "INIT GenInit\nNEXT GenNext\nINVARIANT Emit\nCHECK_DEADLOCK FALSE\n"
+    run = vlib.tlc("StreamRun", "rgen.cfg", files={"rgen.cfg": cfg}, workers=2, timeout=timeout, simulate=simulate, depth=depth, seed=seed)
+    vlib.tlc_must_pass(run, "streaming-run scenario generation (%s, %d nodes)" % (mode, n))
+    seen, out = set(), []
+    for (js,) in [t for t in run.tagged("CASE") if len(t) == 1]:
+        if js not in seen:
+            seen.add(js)
+            out.append(json.loads(js))
+    return out, run
+
+
+def is_chain(sc):
+    if sc["branch"]:
+        return False
+    outs, ins = {}, {}
+    for a, b in sc["edges"]:
+        outs[a] = outs.get(a, 0) + 1
+        ins[b] = ins.get(b, 0) + 1
+    return all(v == 1 for v in outs.values()) and all(v == 1 for v in ins.values())
+
+
+def decorate_run(shapes, rnd, *, prefix):
+    """Secondary dimensions of a streaming-run scenario, spread deterministically by the seeded generator."""
+    out = []
+    for i, sh in enumerate(shapes):
+        nodes = []
+        for name, kind in zip(sh["nodes"], sh["kinds"]):
+            nodes.append({"name": name, "kind": kind, "cap": rnd.choice([0, 0, 1]), "k": rnd.choice([1, 2, 3]),
+                          "okey": sh["mode"] != "wf" and rnd.random() < 0.25, "err": 0})
+        sc = {"id": "%s%d" % (prefix, i), "mode": sh["mode"], "nodes": nodes, "edges": sh["edges"],
+              "branch": [dict(b, pick=rnd.randrange(2), pre=rnd.choice([0, 1, 1]), bdata=rnd.random() < 0.5) for b in sh["branch"]],
+              "handler": rnd.choice(["none", "none", "close", "read1", "drain"]), "read": rnd.choice([-1, -1, 0, 1, 2]), "experr": False}
+        if is_chain(sh) and rnd.random() < 0.8:
+            prods = [n for n in nodes if n["kind"] == "S"]
+            if prods:
+                p = rnd.choice(prods)
+                p["err"] = rnd.randint(1, p["k"])
+                sc["experr"] = True
+        out.append(sc)
+    return out
+
+
+def run_leak(cases, *, repo=None, timeout=900):
+    d = vlib.mkscratch("verif-leak-")
+    cf, of = os.path.join(d, "cases.ndjson"), os.path.join(d, "trace.ndjson")
+    with open(cf, "w") as fh:
+        for c in cases:
+            fh.write(json.dumps(c, separators=(",", ":")) + "\n")
+    code, output, wall = vlib.go_test("compose", LEAK_OVERLAY, "^TestVerifLeak$", timeout=timeout, repo=repo, args=["-test.v"],
+                                      env={"VERIF_CASES": cf, "VERIF_OUT": of})
+    vlib.go_must_run(code, output, "leak harness")
+    if "VERIF-LEAK cases=%d" % len(cases) not in output:
+        raise Inconclusive("leak harness did not report all cases\n" + output[-3000:])
+    return vlib.read_lines(of), wall
